@@ -556,8 +556,11 @@ def _loc_derived_names(fn_node):
     return d
 
 
-def _loc_kind(st, base, fn_node):
-    """what kind of node receives the location: the innermost positive isinstance/hasattr condition on the receiver"""
+DEFINITION_KINDS = ("ClassDef", "FunctionDef", "AsyncFunctionDef")
+
+
+def _guard_classes(st, base, fn_node):
+    """(class names, hasattr name) of the innermost positive isinstance / hasattr condition on the receiver of a location"""
     for t, pol in expr_guards(st, stop=fn_node):
         for a, p in facts(t, pol):
             if not p or not isinstance(a, ast.Call) or not isinstance(a.func, ast.Name) or len(a.args) != 2:
@@ -567,9 +570,38 @@ def _loc_kind(st, base, fn_node):
             if a.func.id == "isinstance":
                 k = a.args[1]
                 names = [k.id] if isinstance(k, ast.Name) else sorted(x.id if isinstance(x, ast.Name) else getattr(x, "attr", "?") for x in getattr(k, "elts", []))
-                return "isinstance:" + "|".join(names)
+                return names, None
             if a.func.id == "hasattr" and isinstance(a.args[1], ast.Constant):
-                return "hasattr:%s" % a.args[1].value
+                return None, a.args[1].value
+    return None, None
+
+
+def _loc_kind(st, base, fn_node, folder=None):
+    """what kind of node receives the location, as a semantic class: named definitions (classes / functions, however the
+    test is spelt), plain assignments, annotated assignments, constants, arguments"""
+    names, attr = _guard_classes(st, base, fn_node)
+    if attr == "name":
+        return "named-definition"
+    if names:
+        resolved = set(names)
+        if folder is not None:
+            for nme in names:
+                v = folder.fold(ast.Name(id=nme, ctx=ast.Load()), {}, st)
+                if isinstance(v, (tuple, list)):
+                    resolved |= {getattr(x, "__name__", str(x)) for x in v}
+        if resolved & set(DEFINITION_KINDS):
+            return "named-definition"
+        if "AnnAssign" in resolved:
+            return "annotated-assignment"
+        if "Assign" in resolved:
+            return "assignment"
+        if resolved & {"Constant", "Str", "Num"}:
+            return "constant"
+        if "arg" in resolved:
+            return "argument"
+        return "isinstance:" + "|".join(sorted(resolved))
+    if attr:
+        return "hasattr:%s" % attr
     return "unconditional"
 
 
@@ -619,6 +651,27 @@ def rule_visit4(prog, rep, tier, anchor="ast_utils.annotate_ancestry"):
                 "VISIT-4", anchor, "loc:%s" % _loc_kind(st, t.value, f_.node if f_ is not None else fi.node),
                 "the location %s is built from the parent's simple name only, not from the parent's location: at nesting depth 3 "
                 "(class A: class B: def m) the method is annotated ['B','m'] and is indistinguishable from a top-level B.m" % inst, loc(prog, st)))
+    # VISIT-4c: when the named definitions that receive a location are picked by an explicit class test, the test names
+    # every definition kind (an `async def` is addressable like a `def`)
+    from sa.consteval import Folder
+    folder = Folder(prog)
+    for st, t, is_root, ind in res:
+        f_ = enclosing_fn(st)
+        names, attr = _guard_classes(st, t.value, f_.node if f_ is not None else fi.node)
+        if not names:
+            continue
+        resolved = set(names)
+        for nme in names:
+            v = folder.fold(ast.Name(id=nme, ctx=ast.Load()), {}, st)
+            if isinstance(v, (tuple, list)):
+                resolved |= {getattr(x, "__name__", str(x)) for x in v}
+        got = resolved & set(DEFINITION_KINDS)
+        if got and got != set(DEFINITION_KINDS):
+            rep.violation(Finding("VISIT-4", anchor, "definition-kinds-without-location:%s" % ",".join(sorted(set(DEFINITION_KINDS) - got)),
+                                  "named definitions receive their location under isinstance(.., (%s)), which leaves out %s: such a definition exists at its dotted "
+                                  "location but resolves to nothing and is never replaced" % (", ".join(sorted(got)), ", ".join(sorted(set(DEFINITION_KINDS) - got))), loc(prog, st)))
+        elif got:
+            rep.holds("VISIT-4", "definition kinds that receive a location: %s" % ", ".join(sorted(got)), loc(prog, st), "all three")
     if len(res) < 3:
         raise AnalysisError("VISIT-4: only %d _location assignments found" % len(res))
 
